@@ -20,6 +20,8 @@ def decode(enc, wd_abs=None):
             return pathlib.PurePosixPath(enc["__p"])
         if "__abs" in enc:
             return os.path.join(ROOT_FOR_ABS[0], enc["__abs"])
+        if "__pabs" in enc:
+            return pathlib.PurePosixPath(os.path.join(ROOT_FOR_ABS[0], enc["__pabs"]))
         if "__t" in enc:
             return tuple(decode(x) for x in enc["__t"])
         if "__d" in enc:
@@ -106,6 +108,9 @@ def build_targets(desc, root=ROOT):
     out = []
     for d in desc["targets"]:
         wd = os.path.join(root, d["wd"]) if d.get("wd") else root
+        if d.get("relwd"):
+            # relative spelling of the same directory; only meaningful while the process cwd is `root`
+            wd = d.get("wd") or "."
         t = Target(
             name=d["name"],
             inputs=decode(d.get("inputs", [])),
@@ -119,16 +124,52 @@ def build_targets(desc, root=ROOT):
     return out
 
 
+_REAL_ROOT = [None]
+LAST_ROOT = [ROOT]  # root used by the most recent build_graph (virtual /proj or the real one)
+
+
+def real_root():
+    """A real, empty directory used as project root (and process cwd) by cases with relative working dirs."""
+    if _REAL_ROOT[0] is None or not os.path.isdir(_REAL_ROOT[0]):
+        import atexit
+        import shutil
+        import tempfile
+
+        d = os.path.realpath(tempfile.mkdtemp(prefix="gwfapiroot", dir="/dev/shm" if os.path.isdir("/dev/shm") else None))
+        atexit.register(shutil.rmtree, d, True)
+        _REAL_ROOT[0] = d
+    return _REAL_ROOT[0]
+
+
 def build_graph(desc, root=ROOT):
     from gwf.core import Graph
 
+    if any(d.get("relwd") for d in desc["targets"]):
+        root = real_root()
+        old = os.getcwd()
+        os.chdir(root)
+        try:
+            targets = build_targets(desc, root)
+            fs = MemFS(desc.get("files", {}), root)
+            g = Graph.from_targets({t.name: t for t in targets}, fs)
+            # resolution happens lazily in some code paths: force it while the cwd is right
+            for t in g.targets.values():
+                t.flattened_inputs(), t.flattened_outputs()
+            LAST_ROOT[0] = root
+            return g, fs
+        finally:
+            os.chdir(old)
     targets = build_targets(desc, root)
     fs = MemFS(desc.get("files", {}), root)
-    return Graph.from_targets({t.name: t for t in targets}, fs), fs
+    g = Graph.from_targets({t.name: t for t in targets}, fs)
+    LAST_ROOT[0] = root
+    return g, fs
 
 
-def rel(path, root=ROOT):
+def rel(path, root=None):
     """gwf absolute path -> project-relative normalised (as in the model)."""
+    root = root or LAST_ROOT[0]
+    path = os.fspath(path)
     if path == root:
         return "."
     if path.startswith(root + "/"):
